@@ -453,3 +453,38 @@ package catalog
 //@   ensures [C09] ret != nil && has(c.Tags.data, ret.Name) && c.Tags.data[ret.Name] == ret && TagsNamed(c.Tags)
 //@   ensures [C09] forall k TagName :: old(has(c.Tags.data, k)) ==> has(c.Tags.data, k) && c.Tags.data[k] == old(c.Tags.data[k])
 //@   ensures RepInvTags(c.Tags) && c.Tags.mx == 0
+
+//@ func (*Tags).Update
+//@   tag C16 C01
+//@   requires m != nil && m.mx == 0 && fn != nil
+//@   oncallback requires m.mx == 2
+//@   oncallback keeps m.mx, m.data, m.order
+//@   ensures m.mx == 0
+
+//@ func (*Interactions).Update
+//@   tag C16 C01
+//@   requires m != nil && m.mx == 0 && fn != nil
+//@   oncallback requires m.mx == 2
+//@   oncallback keeps m.mx, m.data, m.order
+//@   ensures m.mx == 0
+
+//@ func (*Servers).Update
+//@   tag C16 C01
+//@   requires m != nil && m.mx == 0 && fn != nil
+//@   oncallback requires m.mx == 2
+//@   oncallback keeps m.mx, m.data, m.order
+//@   ensures m.mx == 0
+
+//@ func (*UserRules).Update
+//@   tag C16 C01
+//@   requires m != nil && m.mx == 0 && fn != nil
+//@   oncallback requires m.mx == 2
+//@   oncallback keeps m.mx, m.data, m.order
+//@   ensures m.mx == 0
+
+//@ func (*UserTypes).Update
+//@   tag C16 C01
+//@   requires m != nil && m.mx == 0 && fn != nil
+//@   oncallback requires m.mx == 2
+//@   oncallback keeps m.mx, m.data, m.order
+//@   ensures m.mx == 0
